@@ -682,10 +682,17 @@ fn exec_net(out: &mut Out, w: &NetWorld, line: &str) -> (String, bool) {
         }
         "ws" => {
             let url = format!("ws://{}/repe", w.ws);
+            let mut served_inexact = false;
             alive = w.rt.block_on(async {
                 if let Ok((mut c, _)) = tokio_tungstenite::connect_async(&url).await {
                     let _ = c.send(WsMsg::Binary(bs.clone())).await;
-                    let _ = tokio::time::timeout(t, c.next()).await;
+                    let inexact = !matches!(RawFrame::parse_prefix(&bs), Some((_, n)) if n == bs.len());
+                    if let Ok(Some(Ok(WsMsg::Binary(b)))) = tokio::time::timeout(t, c.next()).await {
+                        // a WebSocket message that is not exactly one consistent frame must not be answered as a request
+                        if inexact && RawFrame::parse_prefix(&b).map(|(f, _)| f.h.ec == 0).unwrap_or(false) {
+                            served_inexact = true;
+                        }
+                    }
                 }
                 let Ok((mut c, _)) = tokio_tungstenite::connect_async(&url).await else { return false };
                 if c.send(WsMsg::Binary(ping.clone())).await.is_err() { return false; }
@@ -694,6 +701,9 @@ fn exec_net(out: &mut Out, w: &NetWorld, line: &str) -> (String, bool) {
                     _ => false,
                 }
             });
+            if served_inexact {
+                out.oracle_fail("parse.net.ws.served_inexact_message", "the WebSocket server answered (ec 0) a binary message that is not exactly one consistent frame", &[line.to_string()]);
+            }
         }
         // a real client whose peer answers its call with hostile bytes: the call must return (Ok or Err)
         "client" | "aclient" | "wsclient" => {
@@ -770,7 +780,19 @@ fn exec_net(out: &mut Out, w: &NetWorld, line: &str) -> (String, bool) {
 fn gen_net(r: &mut Rng, n: usize) -> Vec<String> {
     let inputs = gen_parse_inputs(r, n);
     let eps = ["tcp", "atcp", "ws", "client", "aclient", "wsclient"];
-    inputs.iter().enumerate().map(|(i, bs)| format!("net n{} {} {}", i, eps[i % eps.len()], hex(bs))).collect()
+    let mut ops: Vec<String> = inputs.iter().enumerate().map(|(i, bs)| format!("net n{} {} {}", i, eps[i % eps.len()], hex(bs))).collect();
+    // a well-formed request to a registered route followed by trailing bytes / a second frame, as ONE WebSocket message:
+    // the exact-length rule says it must not be served
+    for i in 0..(n / 12).max(8) {
+        let mut m = RawFrame::request(4242, false, 1, b"/ping", 2, b"null").to_vec();
+        match i % 3 {
+            0 => { let l = 1 + r.below(9) as usize; m.extend(r.bytes(l)); }
+            1 => m.extend(RawFrame::request(4243, false, 1, b"/ping", 2, b"null").to_vec()),
+            _ => m.push(0),
+        }
+        ops.push(format!("net x{} ws {}", i, hex(&m)));
+    }
+    ops
 }
 
 /// The repository's interop fixtures (frames produced by other REPE implementations): each must parse with
@@ -814,6 +836,23 @@ fn main() {
         out.rule = "messages with every header field boundary-biased over its full width, 70% consistent; query/body lengths 0..64 KiB biased to 0,1,47-49,255-257,4095-4097,65535-65537; body Vec capacity below/equal/above 48+|q|+|b|; routes to_vec, write_to, into_wire_bytes, write_message, write_message_async, write_message_streaming, builder. Distinct by op line; non-trivial = consistent header (round trip exercised) or a builder case".into();
         let mut ops = fixture_ops(&mut out);
         ops.extend(if args.thorough() { gen_wire(&mut rng, 60000, 40) } else { gen_wire(&mut rng, 3000, 60) });
+        // frames read back through every stream reader with ONE reused buffer (a longer frame first, then shorter
+        // ones): what the reader leaves in the buffer must be exactly the wire frame
+        let mut k = 0usize;
+        for _ in 0..(if args.thorough() { 600 } else { 60 }) {
+            let mut stream = Vec::new();
+            let nf = rng.range(2, 5);
+            for j in 0..nf {
+                let bl = if j == 0 { 200 + rng.below(3000) as usize } else { rng.below(120) as usize };
+                let ql = rng.below(24) as usize;
+                let (q, b) = (rng.bytes(ql), rng.bytes(bl));
+                stream.extend(RawFrame::request(j + 1, false, 1, &q, 2, &b).to_vec());
+            }
+            for name in ["reads0", "reads1", "reads2", "reads3"] {
+                ops.push(format!("{} rb{} {}", name, k, hex(&stream)));
+                k += 1;
+            }
+        }
         ops
     } else {
         out.flush_each = true;
